@@ -140,6 +140,10 @@ Proof. exact generated_plain_builders. Qed.
 Theorem c02_plain_structures_unchanged_misc : plain_hold raw_decls plain_misc = true.
 Proof. exact generated_plain_misc. Qed.
 
+(* the cargo features are independent switches with nothing on by default: a feature set of the model means exactly its cfgs *)
+Theorem c02_feature_table_unchanged : features_hold cargo_features = true.
+Proof. exact generated_features. Qed.
+
 Eval vm_compute in "ASSUMPTIONS c02_message". Print Assumptions c02_message.
 Eval vm_compute in "ASSUMPTIONS c02_parameterless". Print Assumptions c02_parameterless.
 Eval vm_compute in "ASSUMPTIONS c02_next_assertion_same". Print Assumptions c02_next_assertion_same.
@@ -160,3 +164,4 @@ Eval vm_compute in "ASSUMPTIONS c02_modelled_functions_unchanged_accessors". Pri
 Eval vm_compute in "ASSUMPTIONS c02_modelled_functions_unchanged_tables_info". Print Assumptions c02_modelled_functions_unchanged_tables_info.
 Eval vm_compute in "ASSUMPTIONS c02_plain_structures_unchanged_builders". Print Assumptions c02_plain_structures_unchanged_builders.
 Eval vm_compute in "ASSUMPTIONS c02_plain_structures_unchanged_misc". Print Assumptions c02_plain_structures_unchanged_misc.
+Eval vm_compute in "ASSUMPTIONS c02_feature_table_unchanged". Print Assumptions c02_feature_table_unchanged.
